@@ -37,7 +37,7 @@ func cfg(tier string) tierCfg {
 	if tier == "thorough" {
 		return tierCfg{gen: 12000, corpus: 382 * 4, probes: 21 * 6, endless: 300, l2: 3000, tails: 128, budget: 200000, exhaustMax: 1500, sample: 400}
 	}
-	return tierCfg{gen: 260, corpus: 120, probes: 21 * 2, endless: 30, l2: 48, tails: 32, budget: 20000, exhaustMax: 400, sample: 200}
+	return tierCfg{gen: 260, corpus: 120, probes: 21 * 2, endless: 30, l2: 64, tails: 32, budget: 20000, exhaustMax: 400, sample: 200}
 }
 
 func (d *D) Count(tier string) int {
